@@ -100,6 +100,7 @@ fn boot(w_scratch: &PathBuf) -> DaemonFuture {
 		let toml = toml_emit::emit(&w.plan.config, &w.plan.cas, &w.scratch);
 		std::fs::write(&cfg_path, toml).expect("cannot write the generated configuration");
 		let n = w.boots;
+		note_account_files(w, "before_boot");
 		w.push(Ev::Boot { n });
 		n
 	});
@@ -136,6 +137,7 @@ fn stop_daemon(daemon: &mut Option<DaemonFuture>, why: &str) {
 		exec::clear_timers();
 		world::with(|w| w.accounts.clear());
 		exec::note_stop(why);
+		world::with(|w| note_account_files(w, "after_stop"));
 	}
 }
 
@@ -285,9 +287,10 @@ fn run_ops(plan: &Plan, outcomes: &mut Vec<String>) -> Result<(), String> {
 				world::with(|w| {
 					// the account's key as the harness sees it (own JWK construction)
 					let thumb = super::snap::accounts(w).into_iter().flatten().find(|a| &a.name == account).map(|a| a.thumb);
+					let now = w.seq as u128; // event sequence number, not time: instants tie
 					let n = match (w.cas.get_mut(*ca), &thumb) {
-						(Some(c), Some(t)) if !t.is_empty() => c.forget_account(Some(t)),
-						(Some(c), _) => c.forget_account(None),
+						(Some(c), Some(t)) if !t.is_empty() => c.forget_account(Some(t), now),
+						(Some(c), _) => c.forget_account(None, now),
 						_ => 0,
 					};
 					if n > 0 {
@@ -302,11 +305,54 @@ fn run_ops(plan: &Plan, outcomes: &mut Vec<String>) -> Result<(), String> {
 				world::with(|w| {
 					if let Some(p) = toml_emit::path_of(&w.plan, &w.scratch, &format!("account:{}", account)) {
 						if let Ok(f) = std::fs::OpenOptions::new().write(true).open(&p) {
-							let _ = f.set_len(*at);
-							w.fired("fs.truncate_account");
+							let full = f.metadata().map(|m| m.len()).unwrap_or(0);
+							if *at < full {
+								let _ = f.set_len(*at);
+								w.fired("fs.truncate_account");
+							}
 						}
+						note_account_files(w, "after_truncate");
 					}
 				});
+			}
+			Op::TruncateSweep { account, step } => {
+				stop_daemon(&mut daemon, "stop");
+				let path = world::with(|w| toml_emit::path_of(&w.plan, &w.scratch, &format!("account:{}", account)));
+				let path = match path {
+					Some(p) => p,
+					None => continue,
+				};
+				let original = match std::fs::read(&path) {
+					Ok(b) => b,
+					Err(_) => continue,
+				};
+				let mut at = 0u64;
+				while (at as usize) < original.len() {
+					let _ = std::fs::write(&path, &original[..at as usize]);
+					world::with(|w| {
+						w.fired("fs.truncate_account");
+						note_account_files(w, "after_truncate");
+					});
+					daemon = Some(boot(&scratch));
+					let start = world::with(|w| w.mono);
+					let boots = world::with(|w| w.boots);
+					let mut stop = |w: &World| -> Option<String> {
+						let decided = w.trace.iter().rev().take(40).any(|e| match &e.ev {
+							Ev::BootOk { n, .. } | Ev::BootErr { n, .. } => *n == boots,
+							_ => false,
+						});
+						if decided {
+							Some("boot_decided".into())
+						} else {
+							None
+						}
+					};
+					let o = exec::drive(daemon.as_mut().unwrap(), &mut stop, Some(start + 5_000_000_000));
+					outcomes.push(format!("{:?}", o));
+					stop_daemon(&mut daemon, "stop");
+					let _ = std::fs::write(&path, &original);
+					at += (*step).max(1);
+				}
 			}
 			Op::RemoveFile { cert, which } => {
 				world::with(|w| {
@@ -427,5 +473,17 @@ fn virtual_now_ns() -> u64 {
 		world::with(|w| w.mono as u64)
 	} else {
 		0
+	}
+}
+
+fn note_account_files(w: &mut World, when: &str) {
+	let names: Vec<String> = w.plan.config.accounts.iter().map(|a| a.name.clone()).collect();
+	for n in names {
+		if let Some(p) = toml_emit::path_of(&w.plan, &w.scratch, &format!("account:{}", n)) {
+			if let Ok(b) = std::fs::read(&p) {
+				let sha = super::util::sha256_hex(&b);
+				w.push(Ev::FileNote { path: p, sha, len: b.len() as u64, when: when.to_string() });
+			}
+		}
 	}
 }
